@@ -447,8 +447,15 @@ def kh_selected(c, with_port=True):
     ip = kh_ip(c)
 
     def lk(x):
-        return z3.If(z3.Select(m.dom, x), z3.Select(m.val, x), z3.Empty(F.SENT))
+        # an absent host name / peer address ('' for tunnelled or UNIX-socket connections) selects nothing
+        return z3.If(z3.And(z3.Length(x) > 0, z3.Select(m.dom, x)), z3.Select(m.val, x), z3.Empty(F.SENT))
     return z3.Concat(lk(h), lk(a), F.pfilter(c.old('_pattern_entries'), h, a, ip))
+
+
+def kh_no_empty_name(c, new=False):
+    """class invariant of the exact index: '' is never a key (established by _add_exact, the only writer)"""
+    m = c.newv('_exact_entries') if new else c.oldv('_exact_entries')
+    return z3.Not(z3.Select(m.dom, z3.StringVal('')))
 
 
 def kh_match_post(i):
@@ -508,6 +515,7 @@ kh_match_select = TSpec(
     params=dict(host='str', addr='str', port='opt[int]'), classes={'SSHKnownHosts': KH_FIELDS},
     stubs={'ip_address': ip_address_stub, 'entry.matches': hostpat_matches_stub},
     loops={'g1': _kh_gen},
+    requires=kh_no_empty_name,
     region=lambda fn: fn.body[:_kh_cut(fn)],
     ensures=[('selected==exact(name)+exact(addr)+matching-patterns',
               lambda c: _lz(c, c.localv('matches'), 'seq[' + ENTRY_T + ']') == kh_selected(c))],
@@ -556,7 +564,7 @@ kh_match_classify.no_replay = True
 kh_match_callee = Spec(
     'C17x', 'known_hosts', 'SSHKnownHosts._match', self_class='SSHKnownHosts',
     params=dict(host='str', addr='str', port='opt[int]'), classes={'SSHKnownHosts': KH_FIELDS},
-    returns='tuple[' + ','.join(KH_RESULT_T) + ']', modifies=[],
+    returns='tuple[' + ','.join(KH_RESULT_T) + ']', modifies=[], requires=kh_no_empty_name,
     ensures=[(n, kh_match_post(i)) for i, n in enumerate(KH_LOCALS)],
     raises={'ValueError': _KH_RAISES_VALUE, 'AssertionError': lambda c: kh_bad_entry_in(kh_selected(c))})
 Spec.registry.remove(kh_match_callee)
@@ -592,7 +600,7 @@ def kh_fallback_post(i):
 kh_match_public = Spec(
     PROP, 'known_hosts', 'SSHKnownHosts.match', self_class='SSHKnownHosts',
     params=dict(host='str', addr='str', port='opt[int]'), classes={'SSHKnownHosts': KH_FIELDS},
-    stubs={'self._match': _match_call_stub},
+    stubs={'self._match': _match_call_stub}, requires=kh_no_empty_name,
     ensures=[(n.replace('_', '-') + '(port-form-else-plain-fallback)', kh_fallback_post(i))
              for i, n in enumerate(KH_LOCALS)],
     raises={'ValueError': _KH_RAISES_VALUE,
@@ -620,12 +628,12 @@ def add_exact_state(c, parts, i):
 
 
 def add_exact_indexed(c, parts, i):
-    """declarative reading: each of the first i names is a key whose entry list ends with `entry`"""
+    """declarative reading: each non-empty one of the first i names is a key whose entry list ends with `entry`"""
     e = to_z3(c.argv('entry'), ENTRY_T)
     m1 = c.newv('_exact_entries')
     j = z3.Int(fresh_name('j'))
     lst = z3.Select(m1.val, parts[j])
-    return z3.ForAll([j], z3.Implies(z3.And(j >= 0, j < i), z3.And(
+    return z3.ForAll([j], z3.Implies(z3.And(j >= 0, j < i, z3.Length(parts[j]) > 0), z3.And(
         z3.Select(m1.dom, parts[j]), z3.Length(lst) > 0, lst[z3.Length(lst) - 1] == e)))
 
 
@@ -641,14 +649,17 @@ add_exact = Spec(
     PROP, 'known_hosts', 'SSHKnownHosts._add_exact', self_class='SSHKnownHosts',
     params=dict(pattern='str', entry=ENTRY_T), classes={'SSHKnownHosts': KH_FIELDS},
     loops={1: LoopSpec(invariant=lambda c: z3.And(add_exact_state(c, c.extra['iter'].z, c.extra['i']),
-                                                  add_exact_indexed(c, c.extra['iter'].z, c.extra['i'])),
+                                                  add_exact_indexed(c, c.extra['iter'].z, c.extra['i']),
+                                                  kh_no_empty_name(c, new=True)),
                        lemmas=add_exact_lemmas, modifies=['_exact_entries'])},
+    requires=kh_no_empty_name,
     ensures=[('index==old+entry-under-each-comma-name',
               lambda c: add_exact_state(c, F.split_comma(c.arg('pattern')),
                                         z3.Length(F.split_comma(c.arg('pattern'))))),
              ('every-comma-name-is-a-key-ending-with-entry',
               lambda c: add_exact_indexed(c, F.split_comma(c.arg('pattern')),
                                           z3.Length(F.split_comma(c.arg('pattern'))))),
+             ('empty-name-never-indexed(class-invariant)', lambda c: kh_no_empty_name(c, new=True)),
              ('pattern-table-untouched', lambda c: c.new('_pattern_entries') == c.old('_pattern_entries'))])
 add_exact.no_replay = True
 
@@ -823,12 +834,12 @@ def tok_end_is_right(c):
     k, pre = _tok_end(c)
     ch = z3.SubString(line, k, 1)
     return z3.And(k >= 0, k <= z3.Length(line), z3.Not(F.tstop(pre)),
-                  z3.Or(k == z3.Length(line), F.tok_stopcond(F.tq(pre), F.te(pre), ch)))
+                  z3.Or(k == z3.Length(line), F.tok_stopcond(F.tq(pre), ch)))
 
 
 def tok_options_post(c):
     k, pre = _tok_end(c)
-    return c.new('ghost_opts') == z3.Concat(c.old('ghost_opts'), F.topts(pre), z3.Unit(F.tcur(pre)))
+    return c.new('ghost_opts') == z3.Concat(c.old('ghost_opts'), F.topts(pre), z3.Unit(F.tok_final(pre)))
 
 
 parse_options = Spec(
@@ -839,8 +850,7 @@ parse_options = Spec(
     returns='str',
     ensures=[('option-field-ends-at-first-unquoted-blank', tok_end_is_right),
              ('options-are-the-unquoted-comma-tokens', tok_options_post),
-             ('quotes-and-backslashes-balanced', lambda c: z3.And(z3.Not(F.tq(_tok_end(c)[1])),
-                                                                  z3.Not(F.te(_tok_end(c)[1])))),
+             ('quotes-balanced', lambda c: z3.Not(F.tq(_tok_end(c)[1]))),
              ('returns-rest-of-line-after-the-blank-stripped', lambda c: z3.Implies(
                  _tok_end(c)[0] < z3.Length(c.arg('line')),
                  c.result == F.strip_s(z3.SubString(c.arg('line'), _tok_end(c)[0],
@@ -849,7 +859,8 @@ parse_options = Spec(
                  _tok_end(c)[0] == z3.Length(c.arg('line')), c.result == z3.StringVal('')))],
     raises={'ValueError': lambda c: z3.Or(
         z3.BoolVal(len(c.events('add_option_failed')) > 0),
-        z3.And(tok_end_is_right(c), tok_options_post(c), z3.Or(F.tq(_tok_end(c)[1]), F.te(_tok_end(c)[1]))))})
+        # a quoted section still open at the end of the line (the only syntax error OpenSSH knows here)
+        z3.And(tok_end_is_right(c), tok_options_post(c), F.tq(_tok_end(c)[1])))})
 parse_options.no_replay = True
 
 
